@@ -529,19 +529,33 @@ RULES = {
 }
 
 
-def run(prop, tier, seed, src, jobs):
+# violation keys of one family that are ALSO evidence against another property (the check of that property runs the family as an
+# extra monitor with want=<that property>)
+ALSO = {
+    "C16:rename:interface": ["C06"],
+    "C16:rename:unexpected_rejection": ["C06"],
+    "C16:rename:clash_not_rejected": ["C06"],
+}
+
+
+def run(prop, tier, seed, src, jobs, want=None):
     fname = FAMILIES[prop]
+    target = want or prop
     budget = 35 if tier == "quick" else 600
     total = 2400 if tier == "quick" else 60000
     seeds = [seed * 1000003 + i for i in range(total)]
     results = run_cases(MOD, fname, src, seeds, tier, jobs, budget)
     for r in results:
         v = r.get("violation")
-        if v and v.get("prop") != prop:
+        if v and v.get("prop") != target:
+            if target in ALSO.get(v.get("key"), []):
+                r["violation"] = dict(v, prop=target, key=v["key"].replace(v["prop"] + ":", target + ":", 1), replay_key=v["key"])
+                continue
             r["other_violation"] = v
             r["violation"] = None
     _confirm(results, src)
-    return summarise("m_misc[%s]" % prop, results, RULES[prop], "bounded stand-in: random sampling with seed %d, shapes as stated in the rule" % seed)
+    name = "m_misc[%s]" % prop if not want else "m_misc[%s for %s]" % (prop, want)
+    return summarise(name, results, RULES[prop], "bounded stand-in: random sampling with seed %d, shapes as stated in the rule" % seed)
 
 
 def _confirm(results, src, limit=6):
@@ -558,7 +572,7 @@ def _confirm(results, src, limit=6):
         seen[k] += 1
         rep = replay_in_fresh_process(MOD, v["fn"], src, v["input"])
         vv = rep.get("violation") if isinstance(rep, dict) else None
-        if not vv or vv.get("key") != k:
+        if not vv or vv.get("key") != v.get("replay_key", k):
             v["reproduced"] = False
             v["native"] = rep
             r["violation"] = None if (isinstance(rep, dict) and not rep.get("error")) else v
